@@ -89,10 +89,10 @@ Proof.
 Qed.
 
 Lemma ex_stack_holds :
-  holds (model_case ex_f ex_steps false 0 [ex_call; ex_bad_call]) = true /\
-  holds (model_case ex_f [mkStep [] [] default_options 101; mkStep [] [] default_options 102] true 0 [ex_call; ex_bad_call]) = true /\
+  holds (model_case ex_f ex_steps false 0 [WSync; WSync; WSync] [ex_call; ex_bad_call]) = true /\
+  holds (model_case ex_f [mkStep [] [] default_options 101; mkStep [] [] default_options 102] true 0 [WSync; WSync] [ex_call; ex_bad_call]) = true /\
   (* inject b, then two pass-through levels whose wrappers forward: the call runs through three generated bodies *)
-  holds (model_case ex_f [mkStep [2] [] default_options 101; mkStep [] [] default_options 102; mkStep [] [] default_options 103] false 2 [ex_call; ex_bad_call]) = true /\
+  holds (model_case ex_f [mkStep [2] [] default_options 101; mkStep [] [] default_options 102; mkStep [] [] default_options 103] false 2 [WSync; WSync; WSync] [ex_call; ex_bad_call]) = true /\
   partial_ok [mkStep [2] [] default_options 101; mkStep [] [] default_options 102; mkStep [] [] default_options 103] 2 = true.
 Proof. repeat split; vm_compute; reflexivity. Qed.
 
